@@ -3,7 +3,11 @@
 #include "verif.h"
 #include "htp_private.h"
 static unsigned n_called; static int rcs[3];
-static int cb0(void *p){ n_called++; return rcs[0]; } static int cb1(void *p){ n_called++; return rcs[1]; } static int cb2(void *p){ n_called++; return rcs[2]; }
+/* a second connection may be inside the same (shared) hook while this callback runs: from inside the first callback the hook object
+ * must look exactly as registered, and a run of the same hook on behalf of the other connection must call every callback */
+static htp_hook_t *G_h; static unsigned char G_snap[sizeof(htp_hook_t)]; static int depth; static unsigned n_inner; static htp_status_t r_inner; static int inner_done;
+static int cb0(void *p){ if(depth==0 && G_h!=NULL){ depth=1; assert(memcmp(G_snap,G_h,sizeof(htp_hook_t))==0); unsigned keep=n_called; n_called=0; r_inner=htp_hook_run_all(G_h,&n_called); n_inner=n_called; n_called=keep; inner_done=1; depth=0; }
+    n_called++; return rcs[0]; } static int cb1(void *p){ n_called++; return rcs[1]; } static int cb2(void *p){ n_called++; return rcs[2]; }
 static int pick(void){ unsigned v=in_range(0,3); return v==0?HTP_OK: v==1?HTP_DECLINED: v==2?HTP_STOP:HTP_ERROR; }
 void harness(void){
     htp_hook_t *h=NULL; unsigned n=in_range(1,3);
@@ -15,6 +19,9 @@ void harness(void){
     for(unsigned i=0;i<3;i++) if(i<n){ els[i]=htp_list_get(h->callbacks,i); cbs[i]=*(htp_callback_t*)els[i]; }
     /* two connections run the same hook one after the other */
     htp_status_t r1=htp_hook_run_all(h,&n_called); unsigned c1=n_called; n_called=0;
+    /* ... and at overlapping times: connection B runs the hook while connection A is inside its first callback */
+    G_h=h; memcpy(G_snap,snap,sizeof snap); htp_status_t r3=htp_hook_run_all(h,&n_called); unsigned c3=n_called; n_called=0; G_h=NULL;
+    assert(inner_done && r3==r1 && c3==c1 && r_inner==r1 && n_inner==c1);
     assert(memcmp(snap,h,sizeof(htp_hook_t))==0);
     assert(memcmp(&lsnap,h->callbacks,sizeof lsnap)==0);
     for(unsigned i=0;i<3;i++) if(i<n){ assert(htp_list_get(h->callbacks,i)==els[i]); assert(memcmp(&cbs[i],els[i],sizeof(htp_callback_t))==0); }
